@@ -1315,7 +1315,11 @@ class Context:
         finally:
             self._current_vm = None
 
-        return self._to_python(result)
+        try:
+            return self._to_python(result)
+        except RecursionError:
+            # The conversion recurses on the nesting depth of the value
+            raise JSError("Result too large: arrays or objects are nested too deeply to convert")
 
     def _call_function(self, func: JSFunction, args: list) -> Any:
         """Call a JavaScript function with the given arguments.
